@@ -84,6 +84,8 @@ def main():
     ap.add_argument('--tier', default='quick')
     ap.add_argument('--all-checks', action='store_true')
     ap.add_argument('--only', help='substring of seeded dir names')
+    ap.add_argument('--parallel', type=int, default=1,
+                    help='seeded changes verified concurrently')
     a = ap.parse_args()
     if a.cmd == 'verify':
         r = verify(a.dir, a.tier, a.all_checks)
@@ -91,16 +93,34 @@ def main():
         return
     root = os.path.join(VERIF, 'seeded')
     rows = []
+    todo = []
     for n in sorted(os.listdir(root)):
         d = os.path.join(root, n)
         if not os.path.isfile(os.path.join(d, 'meta.json')):
             continue
         if a.only and a.only not in n:
             continue
+        obsolete = json.load(open(os.path.join(d, 'meta.json'))).get('obsolete')
+        if obsolete:
+            print('%-28s OBSOLETE %s' % (n, obsolete[:160]), flush=True)
+            rows.append(dict(name=n, obsolete=obsolete))
+            continue
+        todo.append((n, d))
+
+    def one(nd):
         try:
-            r = verify(d, a.tier, a.all_checks)
+            return nd[0], verify(nd[1], a.tier, a.all_checks)
         except AssertionError as e:
-            print('%-28s ERROR %s' % (n, str(e)[:200]), flush=True)
+            return nd[0], e
+    if a.parallel > 1:
+        from concurrent.futures import ThreadPoolExecutor
+        results = ThreadPoolExecutor(a.parallel).map(one, todo)
+    else:
+        results = map(one, todo)
+    for n, r in results:
+        if isinstance(r, AssertionError):
+            print('%-28s ERROR %s' % (n, str(r)[:200]), flush=True)
+            rows.append(dict(name=n, error=str(r)[:300]))
             continue
         own = r['checks'][r['property']]
         print('%-28s suite_rc=%s demo(clean/mutant)=%s/%s  %s: %s' % (
